@@ -89,3 +89,48 @@ def add_table(cx):
                           z3.And(st['row'].t + st['$i1'].t * rows.t >= 0, st['row'].t + st['$i1'].t * rows.t < ds.t * rows.t))))
     cx.ensures(lambda st, r: z3.Or(isnone.t, z3.Length(table.t) == ds.t * rows.t))
     cx.raises(lambda st, e: z3.BoolVal(True))
+
+
+@contract(F, 'CodeGenerator.__generate_assignment__', ['C15'])
+def generate_assignment(cx):
+    """the emitted choice for a CPT row is  name = 0 {p_0} 1 {p_1} ... (d-2) {p_(d-2)} (d-1)  -- EVERY value of the domain with the probability of its
+    position in the row (the last one implicit), for every row: no entry is dropped or merged.  Texts are sequences of tokens (a literal piece, the
+    decimal form of an integer, the printed form of a probability): equality of texts is equality of token sequences."""
+    TOK = z3.DeclareSort('Token'); TS_ = z3.SeqSort(TOK)
+    NAME = z3.Const('polar_name_of_variable', TOK); TOKINT = z3.Function('decimal', I, TOK); TOKP = z3.Function('printed_probability', R, TOK)
+    lits = {}
+
+    def lit(s_):
+        if s_ not in lits: lits[s_] = z3.Const('literal_' + ''.join(ch if ch.isalnum() else '_%x_' % ord(ch) for ch in s_), TOK)
+        return lits[s_]
+    nd = cx.int('domain_size'); row = cx.seq('cpt_row', DN)
+    cx.requires(nd.t >= 1, z3.Length(row.t) == nd.t)          # a CPT row has one probability per value of the domain (BIF transformer contracts)
+    var = cx.obj('BayesVariable', name=V('varname', None), domain=V('domain', None), cpt=V('cpt', None))
+    cx.param(self=cx.obj('CodeGenerator', polar_variable_names=V('names', None), network=cx.ref('network')), var=var, comb=cx.ref('comb'))
+    cx.call('cpt_entry_sum_valid', lambda ex, st, r, a, kw: VB(ex.fresh(B, 'within_tolerance_of_1')))
+
+    def toks(v):
+        if v.kind == 'toks': return v.t
+        if v.kind == 'str' and z3.is_string_value(v.t): return z3.Unit(lit(v.t.as_string()))
+        raise OutOfReach('a text piece of unknown form')
+    cx.set_hook('binop', lambda ex, st, op, a, b: V('toks', z3.Concat(toks(a), toks(b))) if (op == 'Add' and ('toks' in (a.kind, b.kind) or (a.kind == 'str' and b.kind == 'str'))) else None)
+
+    def index(ex, st, o, i):
+        if o.kind == 'names': return V('toks', z3.Unit(NAME))
+        if o.kind == 'cpt': return row
+        return None
+    cx.set_hook('index_hook', index)
+    cx.call('len', lambda ex, st, r, a, kw: nd if a[0].kind == 'domain' else NotImplemented)
+
+    def str_(ex, st, r, a, kw):
+        x = a[0]
+        if x.kind == 'int': return V('toks', z3.Unit(TOKINT(x.t)))
+        if x.kind in ('num', 'real'): return V('toks', z3.Unit(TOKP(toreal(x))))
+        raise OutOfReach('str of ' + x.kind)
+    cx.call('str', str_)
+    i = z3.Int('i')
+    ITEMS = z3.RecFunction('items_text', I, TS_)
+    z3.RecAddDefinition(ITEMS, [i], z3.If(i <= 0, z3.Empty(TS_), z3.Concat(ITEMS(i - 1), z3.Unit(TOKINT(i - 1)), z3.Unit(lit(' {')), z3.Unit(TOKP(row.t[i - 1])), z3.Unit(lit('} ')))))
+    head = z3.Concat(z3.Unit(NAME), z3.Unit(lit(' = ')))
+    cx.invariant(0, lambda st: toks(st['assignment']) == z3.Concat(head, ITEMS(st['$i0'].t)) if st['assignment'].kind in ('toks', 'str') else z3.BoolVal(False))
+    cx.ensures(lambda st, r: (toks(r) == z3.Concat(head, ITEMS(nd.t - 1), z3.Unit(TOKINT(nd.t - 1)))) if r.kind in ('toks', 'str') else z3.BoolVal(False))
